@@ -6,6 +6,7 @@ use std::io::Result as IoResult;
 use std::sync::mpsc::channel;
 use std::sync::mpsc::{Receiver, Sender};
 use std::io::IoSliceMut;
+use std::mem;
 
 verus! {
 //@include prelude/io.rs
@@ -15,7 +16,9 @@ verus! {
 pub assume_specification<T>[ std::sync::mpsc::channel::<T> ]() -> (r: (Sender<T>, Receiver<T>))
     ensures tx_chan(&r.0) == rx_chan(&r.1);
 // effect witness: only `send` can establish it (DESIGN 3.4)
-pub assume_specification<T>[ Sender::<T>::send ](s: &Sender<T>, t: T) -> (r: Result<(), std::sync::mpsc::SendError<T>>);
+pub uninterp spec fn sent_on<T>(c: int, t: T) -> bool;
+pub assume_specification<T>[ Sender::<T>::send ](s: &Sender<T>, t: T) -> (r: Result<(), std::sync::mpsc::SendError<T>>)
+    ensures sent_on::<T>(tx_chan(s), t);
 
 // ------------------------------------------------------------------ EqualReader
 //@item src/util/equal_reader.rs struct EqualReader
@@ -93,6 +96,86 @@ pub assume_specification<T>[ Sender::<T>::send ](s: &Sender<T>, t: T) -> (r: Res
         // a zero-length read says nothing about end-of-stream (std::io::Read) and must change nothing
         old(buf)@.len() == 0 && res is Ok ==> final(self).inner() is Some == old(self).inner() is Some,
         old(self).inner() is Some && res is Ok && res->Ok_0 > 0 ==> final(self).inner() is Some,
+//@endfn
+//@endimpl
+
+// ------------------------------------------------------------------ SequentialReader (hand-off of the source)
+// chan_val(c): the reader that is (or will be) transferred on the single-use channel c -- a prophecy variable.
+// A-CHAN: each of these channels carries exactly one reader: the one its sender's owner sends when it is dropped.
+pub uninterp spec fn chan_val<R>(c: int) -> R;
+pub assume_specification<T>[ core::mem::replace::<T> ](dest: &mut T, src: T) -> (r: T)
+    ensures r == *old(dest), *final(dest) == src;
+pub assume_specification<T>[ Receiver::<T>::recv ](s: &Receiver<T>) -> (r: Result<T, std::sync::mpsc::RecvError>)
+    ensures r is Ok, r->Ok_0 == chan_val::<T>(rx_chan(s));
+
+#[verifier::reject_recursive_types(R)]
+//@item src/util/sequential.rs struct SequentialReaderBuilder
+#[verifier::reject_recursive_types(R)]
+//@item src/util/sequential.rs enum SequentialReaderBuilderInner
+#[verifier::reject_recursive_types(R)]
+//@item src/util/sequential.rs struct SequentialReader
+#[verifier::reject_recursive_types(R)]
+//@item src/util/sequential.rs enum SequentialReaderInner
+
+impl<R: Read + Send> SequentialReader<R> {
+    /// the reader this handle stands for: its own, or the one its predecessor will send
+    pub closed spec fn current(&self) -> R {
+        match self.inner {
+            SequentialReaderInner::MyTurn(r) => r,
+            SequentialReaderInner::Waiting(rx) => chan_val::<R>(rx_chan(&rx)),
+            SequentialReaderInner::Empty => arbitrary(),
+        }
+    }
+    pub closed spec fn is_empty(&self) -> bool { self.inner is Empty }
+    pub closed spec fn next_chan(&self) -> int { tx_chan(&self.next) }
+}
+impl<R: Read + Send> ReadSpecImpl for SequentialReader<R> {
+    open spec fn stream(&self) -> Seq<u8> { self.current().stream() }
+    open spec fn failed(&self) -> bool { self.current().failed() }
+    // SequentialReader::drop sends its reader on as it is (O-HANDOFF below)
+    open spec fn release(&self) -> Seq<u8> { self.current().stream() }
+    open spec fn drained(&self) -> Seq<u8> { Seq::empty() }
+    open spec fn owns_source(&self) -> bool { true }
+}
+impl<R: Read + Send> SequentialReaderBuilder<R> {
+    pub closed spec fn pending(&self) -> Option<int> {
+        match self.inner { SequentialReaderBuilderInner::First(_) => None, SequentialReaderBuilderInner::NotFirst(rx) => Some(rx_chan(&rx)) }
+    }
+    pub closed spec fn first(&self) -> R { self.inner->First_0 }
+}
+
+//@impl src/util/sequential.rs "Iterator for SequentialReaderBuilder<R>" inherent
+//@fn next ret r props C09,C13
+//@spec
+    ensures
+        // O-RCHAIN: the first handle owns the source; every later one stands for the reader its predecessor sends
+        r is Some && !r->Some_0.is_empty(),
+        old(self).pending() is None ==> r->Some_0.current() == old(self).first(),
+        old(self).pending() is Some ==> r->Some_0.current() == chan_val::<R>(old(self).pending()->Some_0),
+        final(self).pending() == Some(r->Some_0.next_chan()),
+//@endfn
+//@endimpl
+
+//@impl src/util/sequential.rs "Read for SequentialReader<R>"
+//@fn read ret res props C13,C09
+//@spec
+    // The stream contract (inherited from the Read trait specification) with stream() = the stream of the reader this
+    // handle stands for: waiting for the predecessor changes nothing about WHAT is read (C13: hand-off preserves the stream)
+    ensures !final(self).is_empty(), final(self).next_chan() == old(self).next_chan(),
+//@entry
+        // A-TYPEINV: `Empty` is assigned only inside Drop::drop, after which no method can run (Rust drop semantics);
+        // a trait-impl method cannot carry this as a `requires`
+        proof { assume(!self.is_empty()); }
+//@endfn
+//@endimpl
+
+//@impl src/util/sequential.rs "Drop for SequentialReader<R>" inherent
+//@fn drop as drop_body props C09,C13
+//@spec
+    ensures
+        // O-HANDOFF (C09): the successor receives exactly the reader this handle stands for, at its current position
+        !old(self).is_empty() ==> sent_on::<R>(old(self).next_chan(), old(self).current()),
+        final(self).is_empty(),
 //@endfn
 //@endimpl
 
